@@ -54,6 +54,7 @@ func c15rTrigger(_ *workers.TriggerPool, ctx context.Context, n int) {
 //verif:replace (*$M/internal/workers.PoolManager).NewTriggerPool c15rNewTriggerPool
 //verif:replace (*$M/internal/workers.TriggerPool).Start c15rStart
 //verif:replace (*$M/internal/workers.TriggerPool).Trigger c15rTrigger
+//verif:deadlock 1
 func VerifC15_RateStagesRunInOrder() {
 	rate := func(time.Time) int { return 1 }
 	stages := []runnableStage{
